@@ -74,6 +74,16 @@ CHECKS = {
              "missing) is handed to the real translator: it must raise; a returned package is a violation and is kept with the emitted code.",
         design="DESIGN.md section 3 C09", technique="exhaustive enumeration of (host, position, construct) grafts within bounds on the real translator; fail-closed oracle",
         note="Trusted base: the graft generator (mc/lang/graft.py) and its syntactic kind inference; any exception type counts as a refusal."),
+    "C11": dict(
+        text="Specifications x call sites, exhaustively over small pools: all 56 ordered pairs of distinct parameter names from a pool chosen to collide with the code's "
+             "own identifiers, generated names and the arguments' text (x, y, pt, eta, j, i_obj, result2, obj) x code templates (whole-word uses next to longer identifiers "
+             "containing the name, repeated uses, multi-line, parenthesised) x default/custom result names x argument pairs whose C++ text contains the other parameter's "
+             "name; 1-, 3- and 0-parameter functions, bool/int results, collection-returning functions under Select/Count/Sum/SelectMany/First/index/Where, methods bound "
+             "to the receiver, 15 call positions (arithmetic, Where, nested in own argument, twice, inside another injected call, conditional, nested lambda), wrong arity "
+             "and wrong call style for functions, methods and the built-ins DeltaR / isNonnull / getAttributeFloat / getAttributeVectorFloat. Each spec has a Python twin: "
+             "the compiled job's values must equal it exactly; bad calls must raise; result variable, block isolation and includes are checked structurally.",
+        design="DESIGN.md section 3 C11", technique="exhaustive enumeration of (specification, call site) pairs within the pools; executed generated code vs the specification's Python twin",
+        note=NOTE_EDM + " Parameters that occur after '.'/'->' in the code are whole words and substituted by design; such templates are not generated."),
     "C12": dict(
         text="The complete function table (README list, every key of functions_to_replace, built-in abs and pow: 55 names) x six contexts (bare column, f(x)+1, "
              "2*f(x), f(x) > 0, nested in another function, applied to an arithmetic argument) is translated, compiled and run on a 12-point argument grid; "
